@@ -6,6 +6,15 @@ package corr
 // ops:   cfg interval=<ms> media=<u32>   (optional first line; default 100 ms)
 //        pkt seq=<u16>                   an RTP packet carrying that transport-wide number arrives now
 //        adv us=<n>                      advance the virtual clock
+//        bind ssrc=<u32> tcc=<0|1>       BindRemoteStream of a further remote stream (or again of a bound one), with
+//                                        (1) or without (0) the transport-cc extension in its StreamInfo
+//        pkt seq=<u16> ssrc=<u32> [ext=<0|1>]   a packet of that stream (`bad-op` when not bound); ext=0: this packet
+//                                        lacks the transport-cc extension
+// The stream `media` is bound, with the extension, when the case starts; `pkt seq=` is a packet of it.
+// Every stream negotiates its OWN extension id (c05ExtID, a function of the SSRC) among other header
+// extensions under the remaining ids, and every packet carries other extensions under all the ids it does
+// not use for transport-cc (c05_sender_streams_test.go).  The protocol, and the model, have no notion of
+// ids: each stream is read under the id it negotiated, a stream without the extension records nothing.
 // observable: after every `adv`, for every batch the interceptor wrote to the bound RTCPWriter:
 // `write n=<k>` and the canonical `fb …` line of every packet (sender SSRC is random: masked).
 
@@ -24,13 +33,14 @@ import (
 	"github.com/pion/rtp"
 )
 
-const c05TccURI = "http://www.ietf.org/id/draft-holmer-rmcat-transport-wide-cc-extensions-01"
-
 var c05MaskSS = regexp.MustCompile(`^fb ss=\d+ `)
 
 func c05SndCase(r *Rng, tier string, idx int) Case {
-	classes := []string{"steady", "bursty", "idle", "reorder", "ticks", "wrap"}
+	classes := []string{"steady", "bursty", "idle", "reorder", "ticks", "wrap", "streams", "streamsmix"}
 	cl := classes[idx%len(classes)]
+	if cl == "streams" || cl == "streamsmix" {
+		return c05SndStreamsCase(r, cl)
+	}
 	var ops []string
 	interval := r.Pick(100, 100, 100, 50, 20, 250, 1000)
 	if r.Chance(1, 2) {
@@ -140,13 +150,17 @@ func c05SndRun(t *testing.T, ops []string, o *Out) {
 				flush()
 			}
 		}
-		reader := ic.BindRemoteStream(&interceptor.StreamInfo{
-			SSRC:                media,
-			RTPHeaderExtensions: []interceptor.RTPHeaderExtension{{URI: c05TccURI, ID: 5}},
-		}, interceptor.RTPReaderFunc(func(b []byte, a interceptor.Attributes) (int, interceptor.Attributes, error) {
-			spend() // a blocking transport: the time until the packet arrives passes inside this Read
-			return copy(b, cur), a, nil
-		}))
+		readers := map[uint32]interceptor.RTPReader{}
+		hasTcc := map[uint32]bool{}
+		bind := func(ssrc uint32, tcc bool) {
+			hasTcc[ssrc] = tcc
+			readers[ssrc] = ic.BindRemoteStream(c05StreamInfo(ssrc, tcc),
+				interceptor.RTPReaderFunc(func(b []byte, a interceptor.Attributes) (int, interceptor.Attributes, error) {
+					spend() // a blocking transport: the time until the packet arrives passes inside this Read
+					return copy(b, cur), a, nil
+				}))
+		}
+		bind(media, true)
 		flush = func() {
 			mu.Lock()
 			bs := batches
@@ -165,17 +179,37 @@ func c05SndRun(t *testing.T, ops []string, o *Out) {
 			fs := strings.Fields(op)
 			name, m := kv(op)
 			switch {
-			case name == "pkt" && len(fs) == 2:
+			case name == "bind" && len(fs) == 3:
+				ssrc, ok1 := c05ParseU(m["ssrc"], 0xFFFFFFFF)
+				tcc, ok2 := c05ParseU(m["tcc"], 1)
+				spend()
+				if !ok1 || !ok2 {
+					o.P("bad-op")
+					continue
+				}
+				bind(uint32(ssrc), tcc == 1)
+			case name == "pkt" && len(fs) >= 2 && len(fs) <= 4:
 				seq, ok := c05ParseU(m["seq"], 65535)
-				if !ok {
+				ssrc, ext := uint64(media), uint64(1)
+				if len(fs) >= 3 {
+					var ok2 bool
+					ssrc, ok2 = c05ParseU(m["ssrc"], 0xFFFFFFFF)
+					ok = ok && ok2
+				}
+				if len(fs) == 4 {
+					var ok2 bool
+					ext, ok2 = c05ParseU(m["ext"], 1)
+					ok = ok && ok2
+				}
+				reader := readers[uint32(ssrc)]
+				if !ok || reader == nil {
 					spend()
 					o.P("bad-op")
 					continue
 				}
-				h := rtp.Header{Version: 2, SSRC: media, SequenceNumber: rtpSeq, PayloadType: 96}
+				h := rtp.Header{Version: 2, SSRC: uint32(ssrc), SequenceNumber: rtpSeq, PayloadType: 96}
 				rtpSeq++
-				ext, _ := (&rtp.TransportCCExtension{TransportSequence: uint16(seq)}).Marshal()
-				if err := h.SetExtension(5, ext); err != nil {
+				if err := c05SetExtensions(&h, uint16(seq), hasTcc[uint32(ssrc)], ext == 1); err != nil {
 					spend()
 					o.P("err:ext")
 					continue
